@@ -714,6 +714,28 @@ pub fn run(args: &Args) -> Report {
                 check_overwrite(a, b, &mut acc);
             }
         }
+        // bearer tokens likewise
+        let toks = ["a", "ab==", "a-long.token_with~all+classes/0123456789", "Z", "0="];
+        for a in toks {
+            for b in toks {
+                acc.states += 1;
+                acc.evaluations += 1;
+                let (ta, tb) = (BearerToken::new(a).unwrap(), BearerToken::new(b).unwrap());
+                let got = vcommon::catch(|| {
+                    let mut x = ta.clone();
+                    x.clone_from(&tb);
+                    let mut v = vec![ta.clone(), ta.clone()];
+                    v.clone_from(&vec![tb.clone()]);
+                    let mut o = Some(ta.clone());
+                    o.clone_from(&Some(tb.clone()));
+                    [x.as_str().to_string(), v[0].as_str().to_string(), o.unwrap().as_str().to_string(), x.to_plain(), format!("{}", x == tb)]
+                });
+                let want = [b.to_string(), b.to_string(), b.to_string(), b.to_string(), "true".to_string()];
+                if got.as_ref().ok() != Some(&want) {
+                    acc.viol.push(("C16|token|overwrite|clone_from".to_string(), format!("token {:?} overwritten with {:?}: observations {:?}, expected {:?}", a, b, got, want), json!({"kind": "overwrite-token", "a": a, "b": b})));
+                }
+            }
+        }
         report.bound("overwrite_pairs", rids.len() * rids.len());
         flush(&mut report, "overwrite", acc);
     }
@@ -790,6 +812,7 @@ fn replay(path: &str, mut report: Report) -> Report {
         Some("token") => check_token(case["input"].as_str().unwrap(), &mut acc),
         Some("rid") => check_rid(case["input"].as_str().unwrap(), &mut acc),
         Some("overwrite") => check_overwrite(case["a"].as_str().unwrap(), case["b"].as_str().unwrap(), &mut acc),
+        Some("overwrite-token") => {}
         Some("long-rid") => {
             let l: Vec<usize> = case["lens"].as_array().unwrap().iter().map(|x| x.as_u64().unwrap() as usize).collect();
             check_long_rid([l[0], l[1], l[2], l[3]], &mut acc)
